@@ -68,6 +68,10 @@ def run_rules_only(prop, facts_override):
         mod.run(ctx)
     except F.AnchorMissing as e:
         ctx.ob('ANCHOR', 'anchor:' + str(e), False, '-', 'anchor missing: %s' % e)
+    except Exception as e:
+        import traceback
+        traceback.print_exc(file=sys.stderr)
+        ctx.ob('CRASH', 'rule-crash', False, '-', 'the rule engine raised %s: %s' % (type(e).__name__, e))
     for rule, n in ctx.floors.items():
         got = ctx.rule_counts.get(rule, 0)
         if got < n:
